@@ -248,6 +248,134 @@ class Run(object):
         return code
 
 
+class Acc(object):
+    """picklable accumulator shared by on_path callbacks: counters are summed,
+    sets are united and lists concatenated when parallel workers are merged"""
+
+    def __init__(self):
+        self.counts = {}
+        self.sets = {}
+        self.lists = {}
+
+    def inc(self, k, n=1):
+        self.counts[k] = self.counts.get(k, 0) + n
+
+    def add(self, k, v):
+        self.sets.setdefault(k, set()).add(v)
+
+    def append(self, k, v, cap=8):
+        l = self.lists.setdefault(k, [])
+        if len(l) < cap:
+            l.append(v)
+
+    def merge(self, other):
+        for k, v in other.counts.items():
+            self.inc(k, v)
+        for k, v in other.sets.items():
+            self.sets.setdefault(k, set()).update(v)
+        for k, v in other.lists.items():
+            self.lists.setdefault(k, []).extend(v)
+
+
+def par_explore(run, ob, harness, on_path, acc, max_paths=200000, workers=None, split_depth=2, extra=None):
+    """Explore all paths of `harness` on `workers` forked processes, each owning
+    a share of the decision tree (split at `split_depth`).  on_path(r) runs in
+    the worker (under the path's context) and may update acc / ob.samples /
+    call run.replay.  Returns (total paths, incomplete-reason or None).
+    `extra` is an optional callable returning a picklable object collected from
+    each worker (returned as a list in ob.extra_results)."""
+    import multiprocessing as mp
+    import pickle
+    if workers is None:
+        workers = int(os.environ.get("VERIF_WORKERS", "0")) or min(16, os.cpu_count() or 1)
+    if workers <= 1:
+        ex = core.Explorer(max_paths=max_paths, deadline=run.deadline)
+        n = ex.run(harness, on_path=on_path)
+        ob.extra_results = [extra()] if extra else []
+        return n, ex.incomplete
+    ctxm = mp.get_context("fork")
+    pipes = []
+    procs = []
+    for i in range(workers):
+        r, w = ctxm.Pipe(duplex=False)
+
+        def work(i=i, w=w):
+            code = 0
+            try:
+                core.STATS.__init__()
+                ex = core.Explorer(max_paths=max_paths, deadline=run.deadline, shard=(i, workers), split_depth=split_depth)
+                try:
+                    n = ex.run(harness, on_path=on_path)
+                    err = None
+                except (Unsupported, core.BoundExceeded, HarnessError) as e:
+                    n = 0
+                    err = (type(e).__name__, str(e))
+                except Exception as e:
+                    n = 0
+                    err = ("Exception", "%s\n%s" % (e, traceback.format_exc(limit=6)))
+                payload = dict(n=n, incomplete=ex.incomplete, err=err, acc=acc, samples=ob.samples,
+                               violations=ob.violations, verdict=ob.verdict, detail=ob.detail,
+                               stats=core.STATS.as_dict(), extra=extra() if extra else None)
+                w.send_bytes(pickle.dumps(payload))
+            except BaseException as e:
+                try:
+                    w.send_bytes(pickle.dumps(dict(n=0, incomplete=None, err=("Exception", repr(e)), acc=Acc(), samples=[],
+                                                   violations=[], verdict=None, detail="", stats={}, extra=None)))
+                except Exception:
+                    code = 1
+            finally:
+                w.close()
+                os._exit(code)
+        p = ctxm.Process(target=work)
+        p.start()
+        w.close()
+        procs.append(p)
+        pipes.append(r)
+    total = 0
+    incomplete = None
+    errs = []
+    ob.extra_results = []
+    for p, r in zip(procs, pipes):
+        try:
+            d = pickle.loads(r.recv_bytes())
+        except EOFError:
+            d = dict(n=0, incomplete=None, err=("Exception", "worker died"), acc=Acc(), samples=[], violations=[],
+                     verdict=None, detail="", stats={}, extra=None)
+        p.join()
+        total += d["n"]
+        incomplete = incomplete or d["incomplete"]
+        if d["err"]:
+            errs.append(d["err"])
+        acc.merge(d["acc"])
+        for s_ in d["samples"]:
+            if len(ob.samples) < 8:
+                ob.samples.append(s_)
+        known = set(v["signature"] for v in ob.violations)
+        for v in d["violations"]:
+            if v["signature"] not in known:
+                ob.violations.append(v)
+                known.add(v["signature"])
+        if d["verdict"] == "violated":
+            ob.verdict = "violated"
+        elif d["verdict"] == "error" and ob.verdict != "violated":
+            ob.verdict = "error"
+            ob.detail = d["detail"]
+        st = d["stats"]
+        for k in ("queries", "sat", "unsat", "unknown", "solver_s", "paths", "model_hits"):
+            if k in st:
+                setattr(core.STATS, k, getattr(core.STATS, k) + st[k])
+        if d["extra"] is not None:
+            ob.extra_results.append(d["extra"])
+    if errs and ob.verdict != "violated":
+        kind, msg = errs[0]
+        if kind == "Unsupported":
+            raise Unsupported(msg)
+        if kind == "BoundExceeded":
+            raise core.BoundExceeded(msg)
+        raise HarnessError(msg)
+    return total, incomplete
+
+
 def _z3v():
     import z3
     return z3.get_version_string()
